@@ -354,6 +354,7 @@ func (r *runner) step(o op) bool {
 		dupIndex: ep.dup, sameIndex: ep.same, enumNewSize: ep.newSize}
 	var fs []failure
 	fs = append(fs, r.w.checkWF()...)
+	fs = append(fs, r.w.checkLayoutSize()...)
 	fs = append(fs, c.checkFits()...)
 	if ep.applies && o.k != "setminsize" {
 		fs = append(fs, c.checkEnumFits(enumRefsAttached)...)
